@@ -103,6 +103,9 @@ func (m singleModel) Initialise() (error, TimeSteppingModel, data.ND3Float64, da
 			return errors.New(fmt.Sprintf("Input %s has length %d, expected %d: all inputs must have the same length", p, len(thisInput), nTimesteps)), nil, nil, nil, warnings
 		}
 	}
+	if nTimesteps < 0 {
+		return errors.New("No input timeseries provided: cannot determine the number of timesteps"), nil, nil, nil, warnings
+	}
 
 	for i, p := range desc.Inputs {
 		thisInput := m.Inputs.Find(p)
